@@ -173,5 +173,34 @@ def storage_learns(ctx, db):
                 bad = 'learned size %s != allocated size %s' % ([s.get('rhs') for s in st], C19._size_arg(nw[0]))
             if not nw and st:
                 bad = bad or 'the learned size is overwritten on the in-place path'
+            if nw and len(st) == 1 and not bad:
+                # ... and the fit test accepts a block of exactly the learned size: with _alloc_size = learned size the same request takes the
+                # in-place branch (sz + 1 <= sz + 1).  A strict comparison sends every later frame to the heap again
+                learned = C19.lf(st[0].get('rhs'))
+                br = next((it for it in tr if it.k == 'branch' and '_alloc_size' in (it.path or '')), None)
+                sc = split_cmp(br.path) if br is not None else None
+                if sc is None or learned is None:
+                    raise Broken('stack_storage::alloc: fit test against _alloc_size not recognised')
+                def sub_(e_):
+                    l_ = C19.lf(e_)
+                    if l_ is None:
+                        return None
+                    l_ = dict(l_); c_ = l_.pop('this->_alloc_size', 0)
+                    for a_, v_ in learned.items():
+                        l_[a_] = l_.get(a_, 0) + c_ * v_
+                    return {a_: v_ for a_, v_ in l_.items() if v_}
+                a_, b_ = sub_(sc[0]), sub_(sc[2])
+                if a_ is None or b_ is None:
+                    raise Broken('stack_storage::alloc: fit test is not linear')
+                d_ = {k_: a_.get(k_, 0) - b_.get(k_, 0) for k_ in set(a_) | set(b_)}
+                d_ = {k_: v_ for k_, v_ in d_.items() if v_}
+                if set(d_) - {''}:
+                    raise Broken('stack_storage::alloc: fit test does not compare the request with the block size')
+                dv = d_.get('', 0)
+                holds = {'<': dv < 0, '<=': dv <= 0, '>': dv > 0, '>=': dv >= 0, '==': dv == 0, '!=': dv != 0}[sc[1]]
+                # this trace is the heap path: the branch outcome it took is br.val; in-place is the other outcome
+                inplace_when = not bool(br.val)
+                if holds != inplace_when:
+                    bad = 'a block of exactly the learned size is rejected by the fit test (%s): every later frame is heap allocated again' % br.path
         ctx.ob(rid, f, f['key'], bad is None, 'learned size = allocated size' + ('' if not bad else ' -- ' + bad), desc=bad)
 from ..core import Item
